@@ -151,8 +151,16 @@ def tiparg(t, container=None):
     xs = [tipsym(x) for x in t[1]]
     # a collection of tips may be any iterable: list or tuple (content-determined unless the caller asks)
     import zlib
+    if container is None and len(t) > 2:
+        container = t[2]
     if container is None:
-        container = "tuple" if zlib.crc32(("tips" + repr(t)).encode()) % 3 == 0 else "list"
+        container = ("tuple", "array", "list", "list")[zlib.crc32(("tips" + repr(t)).encode()) % 4]
+    if container == "array":
+        # an object array holds the very Python ints / Tip members (an int64 array would hold numpy integers instead)
+        a = np.empty(len(xs), dtype=object)
+        for k, x in enumerate(xs):
+            a[k] = x
+        return a
     return tuple(xs) if container == "tuple" else xs
 
 
